@@ -1,10 +1,390 @@
-"""E-SCHED placeholder (filled in below)."""
+"""E-SCHED: schedule exploration of the two numba kernels (plot/utils.py: evaluate_on_grid, hist2d).
+
+Three instruments (DESIGN.md 3.5):
+ 1. stress sweep of the *shipped* (parallel) build: thread counts x chunk sizes x repetitions, per worker
+    one threading layer (omp / workqueue) and one CPU-affinity class (all cores, 2 cores, 1 core: many
+    runnable threads on few cores are pre-empted inside read-modify-write sequences); every result is
+    compared bit for bit with a sequential oracle, and the number of distinct results per input is recorded;
+ 2. the same source re-jitted sequentially with bounds checking (an ASan-like build: an out-of-bounds index
+    raises IndexError instead of corrupting memory), run on a hostile corpus; it is also the sequential
+    reference of the current source;
+ 3. a shadow-memory iteration-conflict monitor on the pure-Python body (prange replaced by a generator that
+    publishes the iteration, arrays allocated inside the body replaced by a logging ndarray subclass): two
+    different prange iterations touching one element with at least one write is a hazard.  A hazard alone is
+    never a violation (it is reported as witness / 'unconfirmed_hazard').
+"""
+import hashlib
+import os
+import types
+
+import numpy as np
+
+THREADS = [1, 2, 3, 4, 8, 16]
+CHUNKS = [0, 1, 7, 64]
 
 
 def shard_env(shard, nshards, tier):
-    return {"NUMBA_THREADING_LAYER": "omp" if shard % 2 == 0 else "workqueue"}
+    env = {"NUMBA_THREADING_LAYER": "omp" if shard % 2 == 0 else "workqueue", "NUMBA_NUM_THREADS": "16"}
+    env["VMON_AFFINITY"] = ["all", "2", "1"][(shard // 2) % 3]
+    return env
 
 
+_aff_done = False
+
+
+def apply_affinity():
+    global _aff_done
+    if _aff_done:
+        return os.environ.get("VMON_AFFINITY", "all")
+    _aff_done = True
+    a = os.environ.get("VMON_AFFINITY", "all")
+    try:
+        cpus = sorted(os.sched_getaffinity(0))
+        if a == "2" and len(cpus) >= 2:
+            os.sched_setaffinity(0, set(cpus[:2]))
+        elif a == "1":
+            os.sched_setaffinity(0, set(cpus[:1]))
+    except (AttributeError, OSError):
+        pass
+    return a
+
+
+def fingerprint(*arrays):
+    h = hashlib.sha1()
+    for a in arrays:
+        a = np.ascontiguousarray(a)
+        h.update(str(a.dtype).encode() + str(a.shape).encode() + a.tobytes())
+    return h.hexdigest()[:16]
+
+
+# ----------------------------------------------------------------------------- sequential bounds-checked rebuild
+_rebuilt = {}
+
+
+def boundscheck_build(dispatcher):
+    from numba import njit
+    key = id(dispatcher)
+    if key not in _rebuilt:
+        _rebuilt[key] = njit(parallel=False, boundscheck=True)(dispatcher.py_func)
+    return _rebuilt[key]
+
+
+# ----------------------------------------------------------------------------- conflict monitor
+class _Log:
+    def __init__(self):
+        self.iter = None
+        self.events = []       # (array id, flat element indices, iteration, 'r'|'w')
+        self.in_prange = False
+        self.prange_loops = 0
+
+
+class _Shadow(np.ndarray):
+    _log = None
+    _aid = 0
+
+    def _elems(self, key):
+        idx = np.arange(self.size).reshape(self.shape)[key]
+        return np.atleast_1d(idx).ravel()
+
+    def __getitem__(self, key):
+        log = _Shadow._log
+        if log is not None and log.in_prange and type(self) is _Shadow and self.base is None:
+            log.events.append((id(self), self._elems(key), log.iter, "r"))
+        return np.asarray(self).__getitem__(key)
+
+    def __setitem__(self, key, value):
+        log = _Shadow._log
+        if log is not None and log.in_prange and self.base is None:
+            log.events.append((id(self), self._elems(key), log.iter, "w"))
+        np.asarray(self).__setitem__(key, value)
+
+
+def conflict_monitor(dispatcher, args, kwargs=None, max_events=400000):
+    """Run the pure-Python body of a kernel with prange iterations made visible.
+    -> dict(prange_loops, iterations, events, hazards: list of (element, iterations, kinds))"""
+    py = dispatcher.py_func
+    log = _Log()
+
+    def prange_gen(*a):
+        log.prange_loops += 1
+        for i in range(*a):
+            log.iter = i
+            log.in_prange = True
+            yield i
+            if len(log.events) > max_events:
+                break
+        log.in_prange = False
+        log.iter = None
+
+    class NPShim:
+        def __getattr__(self, name):
+            return getattr(np, name)
+
+        @staticmethod
+        def zeros(*a, **k):
+            return np.zeros(*a, **k).view(_Shadow)
+
+        @staticmethod
+        def full(*a, **k):
+            return np.full(*a, **k).view(_Shadow)
+
+        @staticmethod
+        def empty(*a, **k):
+            return np.empty(*a, **k).view(_Shadow)
+
+    g = dict(py.__globals__)
+    g["prange"] = prange_gen
+    g["np"] = NPShim()
+    fn = types.FunctionType(py.__code__, g, py.__name__, py.__defaults__, py.__closure__)
+    _Shadow._log = log
+    try:
+        with np.errstate(all="ignore"):
+            fn(*args, **(kwargs or {}))
+    finally:
+        _Shadow._log = None
+    # Bernstein: same element, different iterations, at least one write
+    touched = {}
+    for aid, elems, it, kind in log.events:
+        for e in elems.tolist():
+            touched.setdefault((aid, e), []).append((it, kind))
+    hazards = []
+    for (aid, e), lst in touched.items():
+        its = {i for i, k in lst}
+        if len(its) > 1 and any(k == "w" for i, k in lst):
+            rmw = sum(1 for i in its if {"r", "w"} <= {k for j, k in lst if j == i})
+            hazards.append({"element": int(e), "iterations": sorted(its)[:6], "n_iterations": len(its),
+                            "lost_update": rmw >= 2})
+    return {"prange_loops": log.prange_loops, "events": len(log.events), "elements_touched": len(touched),
+            "hazards": hazards}
+
+
+# ----------------------------------------------------------------------------- the sweep
+def sweep(res, dispatcher, args, kwargs, reference, label, reps, compare, threads=THREADS, chunks=CHUNKS):
+    """Run the shipped kernel under many configurations; `compare(result, reference)` returns None or a
+    message.  Returns the set of distinct result fingerprints."""
+    import numba
+    aff = apply_affinity()
+    layer = os.environ.get("NUMBA_THREADING_LAYER", "?")
+    prints = {}
+    maxt = numba.config.NUMBA_NUM_THREADS
+    bad = None
+    runs = 0
+    for nt in threads:
+        if nt > maxt:
+            continue
+        numba.set_num_threads(nt)
+        for ch in chunks:
+            numba.set_parallel_chunksize(ch)
+            for rep in range(reps):
+                out = dispatcher(*args, **(kwargs or {}))
+                runs += 1
+                outs = out if isinstance(out, tuple) else (out,)
+                fpv = fingerprint(*outs)
+                prints[fpv] = prints.get(fpv, 0) + 1
+                msg = compare(outs, reference)
+                if msg and bad is None:
+                    bad = (nt, ch, rep, msg)
+    numba.set_parallel_chunksize(0)
+    numba.set_num_threads(maxt)
+    res.count("schedule-runs", runs)
+    res.tag(f"layer-{layer}", f"affinity-{aff}")
+    info = {"label": label, "layer": layer, "affinity": aff, "runs": runs, "distinct_results": len(prints)}
+    if bad:
+        nt, ch, rep, msg = bad
+        res.violate("schedule-dependent-result",
+                    f"{label}: result differs from the sequential oracle with {nt} threads, chunk {ch}, layer {layer}, "
+                    f"affinity {aff} (repetition {rep}): {msg}; {len(prints)} distinct results in {runs} runs",
+                    config={"threads": nt, "chunk": ch, "layer": layer, "affinity": aff})
+    return info
+
+
+# ----------------------------------------------------------------------------- hist2d
+def hist_oracle(x, y, values, xmin, xmax, nx, ymin, ymax, ny):
+    """exact sequential model of hist2d in extended precision (no edge points in the inputs used here)"""
+    LD = np.longdouble
+    dx = (LD(xmax) - LD(xmin)) / nx
+    dy = (LD(ymax) - LD(ymin)) / ny
+    with np.errstate(all="ignore"):
+        ix = np.floor((x.astype(LD) - LD(xmin)) / dx)
+        iy = np.floor((y.astype(LD) - LD(ymin)) / dy)
+        ok = np.isfinite(ix) & np.isfinite(iy) & (ix >= 0) & (ix < nx) & (iy >= 0) & (iy < ny)
+    ix, iy = ix[ok].astype(np.int64), iy[ok].astype(np.int64)
+    counts = np.zeros((ny, nx), dtype=np.int64)
+    np.add.at(counts, (iy, ix), 1)
+    out = np.zeros((values.shape[0], ny, nx), dtype=np.float64)
+    for k in range(values.shape[0]):
+        np.add.at(out[k], (iy, ix), values[k][ok])
+    return out, counts
+
+
+def hist_inputs(rng, kind, n):
+    """inputs that maximise write sharing; values are small integers (every summation order is exact)"""
+    if kind == "one-bin":
+        x, y = rng.uniform(0.1, 0.2, n), rng.uniform(0.1, 0.2, n)
+        lim = (0.0, 1.0, 2, 0.0, 1.0, 2)
+    elif kind == "two-bins":
+        x, y = rng.choice([0.25, 0.75], n) + rng.uniform(-0.1, 0.1, n), rng.uniform(0.1, 0.2, n)
+        lim = (0.0, 1.0, 2, 0.0, 1.0, 1)
+    elif kind == "2x2":
+        x, y = rng.uniform(0.01, 0.99, n), rng.uniform(0.01, 0.99, n)
+        lim = (0.0, 1.0, 2, 0.0, 1.0, 2)
+    elif kind == "clumps":
+        c = rng.uniform(0.1, 0.9, (5, 2))
+        w = rng.integers(0, 5, n)
+        x, y = c[w, 0] + 0.003 * rng.normal(size=n), c[w, 1] + 0.003 * rng.normal(size=n)
+        lim = (0.0, 1.0, 16, 0.0, 1.0, 16)
+    else:  # uniform on a fine grid with points outside
+        x, y = rng.uniform(-0.2, 1.2, n), rng.uniform(-0.2, 1.2, n)
+        lim = (0.0, 1.0, 64, 0.0, 1.0, 48)
+    vals = rng.integers(1, 8, size=(2, n)).astype(np.float64)
+    return x, y, vals, lim
+
+
+def run_hist_kernel_case(case, ctx, res):
+    from osyris.plot import utils as pu
+    rng = ctx.rng("sched", case["i"])
+    kind = ["one-bin", "two-bins", "2x2", "clumps", "uniform"][case["i"] % 5]
+    big = ctx.tier == "thorough"
+    n = int([2000, 200000, 2000000][case["i"] % 3] if not big else [2000, 1000000, 10000000][case["i"] % 3])
+    x, y, vals, (xmin, xmax, nx, ymin, ymax, ny) = hist_inputs(rng, kind, n)
+    args = (x, y, vals, float(xmin), float(xmax), int(nx), float(ymin), float(ymax), int(ny))
+    ref = hist_oracle(*args)
+    res.digest_src = {"sched": kind, "n": n}
+    res.nontrivial = True
+    label = f"hist2d {kind} n={n} grid {nx}x{ny}"
+
+    def compare(outs, reference):
+        o, c = outs
+        if not np.array_equal(c, reference[1]):
+            return f"counts sum {int(c.sum())} vs {int(reference[1].sum())} expected; max bin difference {int(np.abs(c - reference[1]).max())}"
+        if not np.array_equal(o, reference[0]):
+            return "sums differ"
+        return None
+    # 2. bounds-checked sequential rebuild of the same source
+    seq = boundscheck_build(pu.hist2d)
+    try:
+        so = seq(*args)
+        res.count("boundscheck-runs")
+        msg = compare(so, ref)
+        if msg:
+            res.violate("sequential-semantics", f"{label}: the sequential build of hist2d differs from the binning model: {msg}")
+    except IndexError as e:
+        res.violate("kernel-out-of-bounds", f"{label}: bounds-checked build raised IndexError: {e}")
+    # 3. conflict monitor on a small prefix
+    m = min(n, 300)
+    cm = conflict_monitor(pu.hist2d, (x[:m], y[:m], vals[:, :m]) + args[3:])
+    res.count("conflict-monitor-runs")
+    lost = [h for h in cm["hazards"] if h["lost_update"]]
+    # 1. sweep of the shipped build
+    info = sweep(res, pu.hist2d, args, None, ref, label, reps=3 if not big else 15, compare=compare)
+    info.update(prange_loops=cm["prange_loops"], hazards=len(cm["hazards"]), lost_update_hazards=len(lost))
+    if lost and not res.violations:
+        res.tag("unconfirmed-hazard")
+        info["unconfirmed_hazard"] = lost[:2]
+    elif lost and res.violations:
+        res.violations[-1]["detail"]["hazard_witness"] = lost[:2]
+    res.sample = info
+
+
+# ----------------------------------------------------------------------------- evaluate_on_grid
 def run_map_kernel_case(case, ctx, res, thick):
-    res.count("schedule-runs")
-    res.count("boundscheck-runs")
+    """Capture the arguments a real map() call hands to the kernel, then re-run the kernel under the sweep."""
+    from osyris.plot import utils as pu
+    from . import maps, mesh_oracle as mo
+    osy = ctx.osyris
+    rng = ctx.rng("sched", case["i"])
+    mesh = mo.make_mesh(rng, ndim=3 if case["i"] % 4 else 2, max_cells=2500)
+    fixed = {"origin_mode": ["random", "face", "centre"][case["i"] % 3], "window_mode": "ratio",
+             "dir_mode": ["vector", "letter", "vector-zero"][case["i"] % 3], "layers": ["tag", "temp"]}
+    req = maps.draw_request(rng, mesh, thick=thick, fixed=fixed)
+    req["dx"] = float(rng.uniform(0.3, 1.0))
+    req["dy"] = None
+    req["resolution"] = int(rng.choice([64, 96, 128])) if not thick else {"x": 48, "y": 48, "z": 12}
+    if thick:
+        req["dz"] = float(rng.uniform(0.05, 0.5))
+    dg = mo.build_group(osy, mesh, req["pos_unit"], req["box"], rng)
+    f_o = maps.unit_factor(osy, req["pos_unit"], req["origin_unit"])
+    origin = osy.Vector(*[float(v * req["box"] * f_o) for v in req["origin"]], unit=req["origin_unit"])
+    kw = {"direction": osy.Vector(*req["direction"]) if isinstance(req["direction"], list) else req["direction"],
+          "origin": origin, "plot": False, "resolution": req["resolution"],
+          "dx": req["dx"] * req["box"] * osy.units(req["pos_unit"])}
+    if thick:
+        kw["dz"] = req["dz"] * req["box"] * osy.units(req["pos_unit"])
+        kw["operation"] = "nansum"
+    from .io_monitors import quiet
+    from .util import attempt
+    with mo.MapSpy() as spy, quiet():
+        out = attempt(lambda: osy.map(dg.layer("tag"), dg.layer("temp"), **kw))
+    res.digest_src = {"sched-map": case["i"], "thick": thick}
+    res.nontrivial = True
+    if not out.ok or spy.kernel_kwargs is None:
+        res.inconclusive.append("map() call used to capture kernel arguments failed: " + out.describe()[:120])
+        return
+    kk = spy.kernel_kwargs
+    label = f"evaluate_on_grid ({'thick' if thick else 'thin'}) {len(mesh['pos'])} cells, grid {kk['grid_positions_in_original_basis'].shape[:3]}"
+    # sequential bounds-checked reference of the same source
+    seq = boundscheck_build(pu.evaluate_on_grid)
+    try:
+        ref = seq(**kk)
+        res.count("boundscheck-runs")
+    except IndexError as e:
+        res.violate("kernel-out-of-bounds", f"{label}: bounds-checked build raised IndexError: {e}")
+        return
+    # pixels whose sample point touches a face may legitimately differ between schedules
+    gp = kk["grid_positions_in_original_basis"]
+    ndim = int(kk["ndim"])
+    cen = np.stack([kk["cell_positions_in_original_basis_x"], kk["cell_positions_in_original_basis_y"]] +
+                   ([kk["cell_positions_in_original_basis_z"]] if kk["cell_positions_in_original_basis_z"] is not None else []), axis=1)
+    half = np.asarray(kk["cell_sizes"], dtype=float)
+    P = gp.reshape(-1, 3)[:, :ndim]
+    strict, ncand, cand = mo.locate(P, cen, half, tau_rel=1e-9, tau_abs=1e-13)
+    face = ((strict < 0) & (ncand > 0)).reshape(gp.shape[:3])
+
+    def compare(outs, reference):
+        o = outs[0]
+        same = (o == reference) | (np.isnan(o) & np.isnan(reference))
+        diff = ~same & ~face[None, ...]
+        if diff.any():
+            idx = tuple(int(v) for v in np.argwhere(diff)[0])
+            return f"{int(diff.sum())} non-face pixels differ (first at {idx}: {o[idx]!r} vs {reference[idx]!r})"
+        return None
+    # the hostile corpus for the bounds check: shifted far away, huge cells, NaN coordinates
+    for variant in ("far-away", "huge-cell", "nan-cell", "tiny-grid"):
+        k2 = dict(kk)
+        if variant == "far-away":
+            for key in ("cell_positions_in_new_basis_x", "cell_positions_in_new_basis_y", "cell_positions_in_new_basis_z"):
+                k2[key] = kk[key] + 1e6
+        elif variant == "huge-cell":
+            cs = np.array(kk["cell_sizes"], dtype=float)
+            cs[0] = 1e9
+            k2["cell_sizes"] = cs
+        elif variant == "nan-cell":
+            a = np.array(kk["cell_positions_in_new_basis_x"], dtype=float)
+            a[0] = np.nan
+            k2["cell_positions_in_new_basis_x"] = a
+        else:
+            k2["grid_positions_in_original_basis"] = kk["grid_positions_in_original_basis"][:1, :1, :1].copy()
+        try:
+            with np.errstate(all="ignore"):
+                seq(**k2)
+            res.count("boundscheck-runs")
+        except IndexError as e:
+            res.violate("kernel-out-of-bounds", f"{label} [{variant}]: bounds-checked build raised IndexError: {e}")
+            return
+    # conflict monitor on a reduced problem (pure Python is slow): first 60 cells
+    small = dict(kk)
+    m = min(60, len(half))
+    for key in list(small):
+        if key.startswith("cell_positions") and small[key] is not None:
+            small[key] = small[key][:m]
+    small["cell_values"] = kk["cell_values"][:, :m]
+    small["cell_sizes"] = kk["cell_sizes"][:m]
+    small["grid_positions_in_original_basis"] = kk["grid_positions_in_original_basis"][:, ::4, ::4].copy()
+    small["grid_spacing_in_new_basis_x"] = kk["grid_spacing_in_new_basis_x"] * 4
+    small["grid_spacing_in_new_basis_y"] = kk["grid_spacing_in_new_basis_y"] * 4
+    cm = conflict_monitor(pu.evaluate_on_grid, (), small)
+    res.count("conflict-monitor-runs")
+    info = sweep(res, pu.evaluate_on_grid, (), kk, ref, label, reps=2 if ctx.tier == "quick" else 10, compare=compare,
+                 threads=[1, 2, 4, 16] if ctx.tier == "quick" else THREADS, chunks=[0, 7] if ctx.tier == "quick" else CHUNKS)
+    info.update(prange_loops=cm["prange_loops"], write_write_hazards=len(cm["hazards"]), face_pixels=int(face.sum()))
+    res.sample = info
